@@ -859,7 +859,9 @@ pub fn replay(check: &'static dyn Check, path: &Path, tier: Tier, seed: u64) -> 
     std::fs::create_dir_all(&run_dir).unwrap();
     let sp = Spawner { exe: std::env::current_exe().unwrap(), id: check.id().to_string(), tier, seed, run_dir: run_dir.clone(), t0: Instant::now() };
     let mut w = None;
-    let (fails, timed_out) = run_tape(&sp, &mut w, &tape, true, check.watchdog_s() * 1000);
+    // VERIF_LENIENT=1: replay as the search ran it (open known findings suppressed) - to see a second, unknown failure of the same case
+    let strict = std::env::var_os("VERIF_LENIENT").is_none();
+    let (fails, timed_out) = run_tape(&sp, &mut w, &tape, strict, check.watchdog_s() * 1000);
     if let Some(mut wk) = w.take() {
         wk.kill();
     }
